@@ -154,3 +154,59 @@ def check_shadowed_attributes(prog, res, fns, rule='X8'):
              'the local `%s` shadows self.%s after its normalisation; no '
              'call gets the raw attribute afterwards' % (x, x))
   return n
+
+
+# ---------------------------------------------------------------------------
+# S13 - a list taken from a configuration object is not extended in place
+def check_config_aliasing(prog, res, fns, rule='S13'):
+  """`x = cfg.items or []` binds the configuration's OWN list whenever it is
+  non-empty; `x.extend(...)` / `x.append(...)` / `x += [...]` afterwards
+  grows the list inside the (model / feature) configuration: get_config()
+  of a built model then already contains the additions, and every
+  get_config() -> from_config() round adds them again.  A copy
+  (`list(...)`, `[] + ...`, a new list that is extended) is required."""
+  n = 0
+  for fn in fns:
+    params = set(fn.all_params) - {'self'}
+    aliases = {}
+    for st in ast.walk(fn.node):
+      if isinstance(st, ast.Assign) and len(st.targets) == 1 and isinstance(
+          st.targets[0], ast.Name):
+        v = st.value
+        cands = [v]
+        if isinstance(v, ast.BoolOp) and isinstance(v.op, ast.Or):
+          cands = list(v.values)
+        for c in cands:
+          d = dotted(c)
+          if isinstance(c, ast.Attribute) and d and d.split('.')[0] in \
+              params and d.split('.')[0].endswith('config'):
+            aliases[st.targets[0].id] = (d, st)
+    for name, (src, st0) in sorted(aliases.items()):
+      n += 1
+      bad = None
+      for st in ast.walk(fn.node):
+        if getattr(st, 'lineno', 0) <= st0.lineno:
+          continue
+        if isinstance(st, ast.Call) and isinstance(st.func, ast.Attribute) \
+            and isinstance(st.func.value, ast.Name) and \
+            st.func.value.id == name and st.func.attr in (
+                'append', 'extend', 'insert', 'pop', 'remove', 'sort',
+                'update', 'clear'):
+          bad = st
+        if isinstance(st, ast.AugAssign) and isinstance(
+            st.target, ast.Name) and st.target.id == name:
+          bad = st
+        if isinstance(st, (ast.Assign, ast.AugAssign)):
+          t = st.targets[0] if isinstance(st, ast.Assign) else st.target
+          if isinstance(t, ast.Subscript) and isinstance(
+              t.value, ast.Name) and t.value.id == name:
+            bad = st
+      res.check(bad is None, rule, '%s|%s' % (fn.qualname, name),
+                fn.loc(bad if bad is not None else st0),
+                '`%s` (= %s) is only read' % (name, src),
+                '`%s` is `%s` itself whenever that list is non-empty, and '
+                '`%s` changes it in place: the configuration object of the '
+                'caller grows on every build / config round trip' % (
+                    name, src, norm_text(bad)[:50] if bad is not None else
+                    ''))
+  return n
